@@ -13,7 +13,9 @@ RULE = (
     "integer), every slice with start/stop in {None,-n-1..n+1} x step in {None,1,2,3,-1,-2}, string keys, iteration, node(), "
     "parent()/children() on the tree, and the same index/slice space on every root-to-tip path, every branch (get_branches and "
     "Node.branch) and every compartment; get_segments/get_compartments of the tree and of every branch; adjacency matrix; "
-    "detach()/copy() of every object followed by writes on either side. histories: explicit-state BFS over event sequences from "
+    "detach()/copy() of every object followed by writes on either side (views re-read while the tree is edited; copies and detached "
+    "objects retained and re-inspected after later cases). query-edit-query: every LT(n) x every admissible single re-parenting x 3 edit "
+    "routes, all structural queries warmed before and repeated after. histories: explicit-state BFS over event sequences from "
     "every first event on each base tree: obtain node handle / path / branch / segment / segment of a branch / node of a path, "
     "copy(), detach(), attribute write through a Tree.Node (or detached Node) handle, in-place column write into any store, comment "
     "append; every state is rebuilt by replaying its history on fresh real objects and every live object is read back and compared "
@@ -258,6 +260,7 @@ def check_static(case, R):
         R.check(store_cols(c) == src and list(c.comments) == list(t.comments) and c.source == t.source, "copy:content", what, "copy:tree:content")
         why = build.independent(c, t)
         R.check(why == "", "copy:not-independent", lambda: f"{what}: {why}", "copy:tree:independent")
+        R.retain("tree-copy", lambda c=c: (store_cols(c), list(c.comments)))
     # ---- observation (not asserted): writes through a Path.Node handle
     if ok and n >= 2 and decomp:
         c2 = t.copy()
@@ -322,6 +325,13 @@ def check_pathlike(R, t, src, keys, rtag, kind, o, L, what, snap, light=False):
     for k in keys:
         t.ndata[k] += 1
     after = read_path(d, keys)
+    # query -> in-place edit -> query again: the attached view describes the owner's CURRENT content
+    now = {k: t.ndata[k].tolist() for k in keys}
+    ok, mid = R.impl(f"{kind}:read-after-edit", read_path, o, keys)
+    if ok:
+        wmid = want_path(now, L)
+        R.check(mid == wmid, "view-stale", lambda: f"{desc}: after an in-place edit of the tree the view still reports old values: " + first_diff(mid, wmid),
+                f"view-stale:{kind}:after-in-place-edit")
     for k in keys:
         t.ndata[k][...] = saved[k]
     R.check(after == full, "detach:follows-original", lambda: f"{desc}: detached copy changed after in-place edit of the tree: " + first_diff(after, full),
@@ -332,6 +342,10 @@ def check_pathlike(R, t, src, keys, rtag, kind, o, L, what, snap, light=False):
     R.check(read_path(o, keys) == want_path(src, L), "detach:writes-reach-original", lambda: f"{desc}: editing the detached copy changed the view", f"detach:{kind}:writes-reach-original")
     for k in keys:  # keep later checks on this tree meaningful even after a reported leak
         t.ndata[k][...] = saved[k]
+    for k in d.attach.ndata:
+        d.attach.ndata[k] -= 1
+    if read_path(d, keys) == full:  # exactly restored: from now on nothing may change the detached copy
+        R.retain(f"detached-{kind}", lambda d=d, keys=keys: read_path(d, keys))
 
 
 def check_node_detach(case, R):
@@ -370,6 +384,74 @@ def check_node_detach(case, R):
         R.check(_num(d.x) == 9.0 and _num(d.type) == 9, "write-through:lost", lambda: f"p={p} detached node {i}: own write not visible", "write-through:detached-node")
         R.check(build.snapshot(t) == snap, "detach:writes-reach-original", lambda: f"p={p} node {i}: write into detached node changed the tree", "detach:node:writes-reach-original")
     R.outcome(tuple(p))
+
+
+# ------------------------------------------------------------------ query -> structural edit -> query
+
+
+def structure_report(R, t, p, what, klass):
+    """Segments, parent()/children() and adjacency of tree t must describe parent list p."""
+    n = len(p)
+    ch = ref.children(p)
+    cols = store_cols(t)
+    for nm in ("get_segments", "get_compartments"):
+        ok, segs = R.impl(f"Tree.{nm}", getattr(t, nm))
+        if not ok:
+            continue
+        ok, gotp = R.impl(f"Tree.{nm}:read", lambda: [[int(i) for i in s.get_ndata("id").tolist()] for s in segs])
+        if not ok:
+            continue
+        wantp = sorted([a, b] for a, b in ref.edges(p))
+        if R.check(sorted(gotp) == wantp, "tree-segments:pairs", lambda: f"{what}: segments {gotp}, (parent, child) pairs {wantp}", f"tree-segments:{klass}"):
+            for s_, pr in zip(segs, gotp):
+                g, w = read_path(s_, list(cols)), want_path(cols, pr)
+                R.check(g == w, "segment:attributes", lambda: f"{what} segment {pr}: " + first_diff(g, w), f"segment:attributes:{klass}")
+    for i in range(n):
+        h = t[i]
+        ok, par = R.impl("Node.parent", h.parent)
+        if ok:
+            got = None if par is None else _num(par.id)
+            R.check(got == (None if p[i] == -1 else p[i]), "node:parent", lambda: f"{what} node {i}: parent {got} want {p[i]}", f"node:parent:{klass}")
+        ok, cs = R.impl("Node.children", h.children)
+        if ok:
+            got = sorted(_num(c.id) for c in cs)
+            R.check(got == ch[i], "node:children", lambda: f"{what} node {i}: children {got} want {ch[i]}", f"node:children:{klass}")
+    ok, am = R.impl("get_adjacency_matrix", t.get_adjacency_matrix)
+    if ok:
+        dense = am.toarray().tolist()
+        want = [[1 if p[c] == a else 0 for c in range(n)] for a in range(n)]
+        R.check(dense == want, "adjacency", lambda: f"{what}: {dense} want {want}", f"tree:adjacency:{klass}")
+
+
+def check_edit(case, R):
+    """Warm every query, re-parent one node in place (3 routes), query again; handles obtained before stay live."""
+    p, i, j, how = list(case[0]), int(case[1]), int(case[2]), case[3]
+    R.state("edit", p, i, j, how)
+    t = make(p, R.seed % 4)
+    keys = list(t.keys())
+    what0 = f"tree p={p}"
+    structure_report(R, t, p, what0 + " (before the edit)", "before-edit")
+    handles = [t[k] for k in range(len(p))]
+    ok, held = R.impl("Tree.get_segments", t.get_segments)
+    held = list(held) if ok else []
+    held_pairs = [[int(v) for v in s.get_ndata("id").tolist()] for s in held]
+    obj, q, other, op = build.apply_reparent(t, p, (i, j, how))
+    R.trans()
+    what = f"{what0} after re-parenting node {i} to {j} via {how} (now {q})"
+    structure_report(R, obj, q, what, f"after-edit:{how}")
+    if other is not None:
+        structure_report(R, other, op, what0 + f" (original after its copy was re-parented {i}->{j})", "original-after-copy-edit")
+    # objects obtained from t before the edit refer to the same nodes of t and report their current attributes
+    cur_p = q if other is None else op
+    cols = store_cols(t)
+    for k, h in enumerate(handles):
+        g, w = read_node(h, keys), want_node(cols, k)
+        R.check(g == w and _num(h.pid) == cur_p[k], "node:attributes", lambda: f"{what}: handle of node {k} obtained before the edit: " + first_diff(g, w),
+                f"node-handle-stale:{how}")
+    for s_, pr in zip(held, held_pairs):
+        g, w = read_path(s_, keys), want_path(cols, pr)
+        R.check(g == w, "segment:attributes", lambda: f"{what}: segment {pr} obtained before the edit: " + first_diff(g, w), f"segment-stale:{how}")
+    R.outcome(tuple(q), how)
 
 
 # ------------------------------------------------------------------ histories: model
@@ -723,7 +805,18 @@ def spaces(tier, seed):
             for ev in first_events(b, max_objs):
                 yield (b, ev, deep.get(b, depth), max_objs)
 
+    ed_hi = 5 if quick else 6
+
+    def gen_edit():
+        for n in range(2, ed_hi + 1):
+            for p in S.labelled_trees(n):
+                for (i, j) in build.reparent_edits(p):
+                    for how in build.EDIT_HOWS:
+                        yield (p, i, j, how)
+
     return [
+        Space.of("query-edit-query", gen_edit, check_edit,
+                 bounds={"LT_max_nodes": ed_hi, "edits": "every single re-parenting that keeps the tree well-formed", "how": list(build.EDIT_HOWS)}),
         Space.of("views-static", gen_static, check_static,
                  bounds={"LT_max_nodes": lt_hi, "int_index": "[-n-1, n] as int / np.int64 / np.int32", "slice_start_stop": "None, -n-1..n+1", "slice_steps": list(STEPS)}),
         Space.of("node-detach", gen_static, check_node_detach, bounds={"LT_max_nodes": lt_hi}),
